@@ -303,6 +303,30 @@ def check_conservation_options(d: int, greedy: int, flowsafe: int, safepaths: in
         return outcome == "ValueError"
     return outcome == "ok"
 
+def check_k_given_weights(k: int) -> bool:
+    """
+    pre: -2 <= k <= 2
+    post: _
+    """
+    # non-positive k must be rejected also when solution_weights_superset is given (the model then works with
+    # len(superset) layers internally, but k is still the caller's bound on the number of paths)
+    kk = _conc(k, -2, 2)
+    if k <= 0:
+        pass
+    with NoTracing():
+        G = _build([3, 3], 0)
+        try:
+            m = getattr(fp, CLS)(G, "flow", k=kk, weight_type=int, solution_weights_superset=[3, 2, 1])
+            m.solve()
+            outcome = "ok"
+        except ValueError:
+            outcome = "ValueError"
+        except Exception as e:
+            outcome = type(e).__name__
+    if kk <= 0:
+        return outcome == "ValueError"
+    return outcome == "ok"
+
 BIG = [1, 1000, 3000000000, 2 ** 45]
 
 def check_magnitude(scale: int, d: int, where: int, asfloat: int) -> bool:
@@ -397,6 +421,7 @@ CLASSES = {
 def gen_tasks(tier, seed):
     tasks = [{"cls": c, "fn": fn, **v} for fn in ("check_structural", "check_numeric", "check_ignore", "check_reuse") for c, v in CLASSES.items()]
     tasks += [{"cls": c, "fn": "check_magnitude", **v} for c, v in CLASSES.items() if v["flowdec"]]
+    tasks += [{"cls": c, "fn": "check_k_given_weights", **v} for c, v in CLASSES.items() if c in ("kFlowDecomp", "kLeastAbsErrors", "kMinPathError")]
     tasks += [{"cls": c, "fn": "check_conservation_options", **v} for c, v in CLASSES.items() if v["flowdec"] and not v["cyc"]]
     tasks += [{"cls": c, "fn": "check_node_valid", **v} for c, v in CLASSES.items() if c in ("kLeastAbsErrors", "kMinPathError", "kLeastAbsErrorsCycles", "kMinPathErrorCycles")]
     for i, t in enumerate(tasks):
@@ -450,7 +475,7 @@ def _normalise(call):
         return ("check", [1, 4, w0, w1, ign, 0, 0], {})
     if fn == "check_reuse":
         return ("check_reuse", list(pos), {})
-    if fn in ("check_magnitude", "check_node_valid", "check_conservation_options"):
+    if fn in ("check_magnitude", "check_node_valid", "check_conservation_options", "check_k_given_weights"):
         return (fn, list(pos), dict(kw))
     if fn == "check_structural":
         corr, k, w0, covn = pos
@@ -466,6 +491,8 @@ def _diag(task, call):
         return "graph-object-reused-after-in-place-edit"
     if fn == "check_magnitude":
         return "conservation-not-decided-exactly-at-large-magnitude"
+    if fn == "check_k_given_weights":
+        return "non-positive-k-accepted-with-solution_weights_superset" if (pos and pos[0] <= 0) else "valid-k-rejected-with-solution_weights_superset"
     if fn == "check_conservation_options":
         return "non-conserving-flow-accepted-under-some-option-setting" if (pos and pos[0] != 0) else "conserving-flow-rejected-under-some-option-setting"
     if fn == "check_node_valid":
